@@ -244,6 +244,11 @@ pub struct Run<'a> {
     pub login_found: BTreeMap<String, Option<Option<String>>>,
     /// account names registered by someone else while a rename away from them was half done
     pub tainted_names: BTreeSet<String>,
+    /// names whose account went away (or was renamed) by a call whose acknowledgement was lost,
+    /// while the issuing client still holds a session for the name: (client, name)
+    pub orphan_sessions: Vec<(usize, String)>,
+    /// such names that somebody else then registered: isolation verdicts about them are relaxed
+    pub relaxed_names: BTreeSet<String>,
     /// open rename windows: (client, old name, new name)
     pub windows: Vec<(usize, String, String)>,
     /// every acknowledged add: which code a stored problem document was created for
@@ -275,10 +280,21 @@ impl<'a> Run<'a> {
         }
     }
 
+    /// Narrow relaxation under database faults: when the acknowledgement of an account deletion
+    /// or rename was lost, the issuing client still holds a (stateless cookie) session for the
+    /// old name; once somebody else registers that name the two are one principal as far as the
+    /// service can tell. Isolation verdicts that involve such a name are not judged.
+    fn relaxed(&self, names: &[&str]) -> bool {
+        names.iter().any(|n| self.relaxed_names.contains(*n))
+    }
+
     /// A violation seen by client `c`: if its account is one whose ownership got mixed up by a
     /// registration inside a rename window, the cause key says so.
     fn viol_client(&mut self, c: usize, v: Violation) {
         let acct = self.cl[c].acct.clone().unwrap_or_default();
+        if self.relaxed(&[&acct]) {
+            return;
+        }
         let v = if (v.oracle.starts_with("O3") || v.oracle.starts_with("O1")) && self.tainted_names.contains(&acct) {
             let k = format!("{}/user.rs:update_user/name-reuse-inside-rename-window", &v.oracle[..2]);
             v.with_key(k)
@@ -343,6 +359,18 @@ impl<'a> Run<'a> {
                             }
                         }
                     }
+                    if ev.outcome == "fault-after" && (ev.op == "delete_one" || ev.op == "replace_one") {
+                        // executed, acknowledgement lost: the client keeps a session for a name
+                        // whose account is gone / renamed
+                        if let (Some(b), Some(c)) = (&t.before, actor_client) {
+                            let old = doc_str(b, "username").unwrap_or_default();
+                            let newn = t.after.as_ref().and_then(|a| doc_str(a, "username"));
+                            if newn.as_deref() != Some(old.as_str()) {
+                                self.orphan_sessions.push((c, old));
+                                self.stats.inc("probe_session_outlives_account_after_lost_ack");
+                            }
+                        }
+                    }
                     if ev.op == "replace_one" {
                         if let (Some(b), Some(a), Some(c)) = (&t.before, &t.after, actor_client) {
                             let (old, new) = (doc_str(b, "username").unwrap_or_default(), doc_str(a, "username").unwrap_or_default());
@@ -359,6 +387,10 @@ impl<'a> Run<'a> {
                     if ev.op == "insert_one" {
                         if let (Some(a), Some(c)) = (&t.after, actor_client) {
                             let name = doc_str(a, "username").unwrap_or_default();
+                            if self.orphan_sessions.iter().any(|(oc, on)| *oc != c && *on == name) {
+                                self.relaxed_names.insert(name.clone());
+                                self.stats.inc("relaxed_name_reused_under_stale_session_after_lost_ack");
+                            }
                             let hit: Vec<String> = self.windows.iter().filter(|(wc, old, _)| *wc != c && *old == name).map(|(_, _, new)| new.clone()).collect();
                             if !hit.is_empty() {
                                 // from now on problems filed under the old name belong to two
@@ -408,6 +440,9 @@ impl<'a> Run<'a> {
                         } else {
                             format!("O2/{}:{}", ev.coll, ev.op)
                         };
+                        if self.relaxed(&[&uname, &fuser]) {
+                            continue;
+                        }
                         let v = Violation::new("O2-foreign-write", ev.op, format!("{} ({}) {} on {} filter {} modified a document created by {} (doc {}, username {:?})", ev.actor, if is_bg { "background task" } else { "request" }, ev.op, ev.coll, ev.filter, t.prov, t.id, uname)).with_key(key);
                         self.viol(v);
                     }
@@ -461,7 +496,9 @@ impl<'a> Run<'a> {
                     "O1/foreign-data-in-response".to_string()
                 };
                 let v = Violation::new("O1-foreign-data", "response", format!("response to client {c} ({rq:?}, status {}) contains data labelled {} of client {d}: {}", resp.status, marker(d), clip(&resp.body))).with_key(key);
-                self.viol(v);
+                if !self.relaxed(&[&acct]) {
+                    self.viol(v);
+                }
             }
         }
         // unauthenticated requests obtain no problem data
@@ -775,6 +812,8 @@ async fn run_world(svc_cfg: &Service, case: &SrvCase, dec: Decisions, seed_for_k
         plaintexts: BTreeSet::new(),
         login_found: BTreeMap::new(),
         tainted_names: BTreeSet::new(),
+        orphan_sessions: Vec::new(),
+        relaxed_names: BTreeSet::new(),
         windows: Vec::new(),
         submitted: Vec::new(),
         inserted_by: BTreeMap::new(),
@@ -996,7 +1035,9 @@ async fn final_phase(run: &mut Run<'_>) {
                             "O1/foreign-data-in-response".to_string()
                         };
                         let v = Violation::new("O1-foreign-data", "response", format!("final get {pname} of client {cc} contains data labelled {} of client {d}: {}", marker(d), clip(&resp.body))).with_key(key);
-                        run.viol(v);
+                        if !run.relaxed(&[&acct]) {
+                            run.viol(v);
+                        }
                     }
                 }
                 if resp.status == 200 {
